@@ -102,6 +102,35 @@ func zzIn(x, y zzVal) (bool, bool) {
 	return rv.Bool(), true
 }
 
+// zzInTyped: membership in a typed Go slice holding y (after another
+// element that differs from x only if x differs from y's zero value).
+func zzInTyped(x, y zzVal) (res bool, ok bool, applicable bool) {
+	var list interface{}
+	switch v := y.v.(type) {
+	case int64:
+		list = []int64{v, v}
+	case float64:
+		list = []float64{v}
+	case int32:
+		list = []int32{v}
+	case float32:
+		list = []float32{v}
+	case uint8:
+		list = []uint8{v}
+	case bool:
+		list = []bool{v}
+	case string:
+		list = []string{v}
+	default:
+		return false, false, false
+	}
+	rv, err := zzEval(env.NewEnv(), &ast.IncludeExpr{ItemExpr: zzLit(x.v), ListExpr: zzLit(list)})
+	if err != nil || !rv.IsValid() || rv.Kind() != reflect.Bool {
+		return false, false, true
+	}
+	return rv.Bool(), true, true
+}
+
 func zzSwitch(x, y zzVal) (bool, bool) {
 	st := &ast.SwitchStmt{Expr: zzLit(x.v),
 		Cases:   []ast.Stmt{&ast.SwitchCaseStmt{Exprs: []ast.Expr{zzLit(y.v)}, Stmt: &ast.ExprStmt{Expr: zzLit(true)}}},
@@ -137,6 +166,9 @@ func ZZ_C06_laws() {
 	zz.Assert(nxy == zz.Not(exy), "C06.neq-is-negation/"+cls)
 	in, ok4 := zzIn(x, y)
 	zz.Assert(ok4 && in == exy, "C06.in-agrees/"+cls)
+	if inT, okT, applicable := zzInTyped(x, y); applicable {
+		zz.Assert(okT && inT == exy, "C06.in-typed-slice-agrees/"+cls)
+	}
 	sw, ok5 := zzSwitch(x, y)
 	zz.Assert(ok5 && sw == exy, "C06.switch-agrees/"+cls)
 	// nil equals only nil
